@@ -49,6 +49,7 @@ type runSpec struct {
 	Trace    bool                `json:"trace"`
 	Ovr      bool                `json:"ovr"`     // the resolver overrides google/protobuf/descriptor.proto (model file "d")
 	Collide  bool                `json:"collide"` // all files share one package and every requested file defines message Dup
+	Sched    [][]string          `json:"sched"`   // TLC-exported schedule: replayed step by step through the gates
 }
 
 type runResult struct {
@@ -62,6 +63,8 @@ type runResult struct {
 	PanicOK  bool              `json:"panic_ok"`
 	Stacks   string            `json:"stacks,omitempty"`
 	NEvents  int               `json:"nevents"`
+	Nonconf  string            `json:"nonconf,omitempty"` // schedule replay: where the real code left the model's schedule
+	Steps    int               `json:"steps"`             // schedule replay: model steps driven
 	Warnings int               `json:"warnings"`
 }
 
@@ -262,6 +265,189 @@ func collect(f protoreflect.FileDescriptor, out map[string]string) {
 
 var tr = &tracer{}
 
+// ---------------------------------------------------------------------------------------------
+// Gate controller: replays a TLC schedule on the real compiler, one goroutine per model step.
+
+type arrival struct {
+	gate   string
+	resume chan struct{}
+}
+
+type controller struct {
+	mu      sync.Mutex
+	parked  map[string]*arrival
+	exited  map[string]bool
+	created map[string]bool
+	free    bool
+	wake    chan struct{}
+}
+
+var minorGate = map[string]bool{"setblocked": true, "checklookup": true}
+
+func newController() *controller {
+	return &controller{parked: map[string]*arrival{}, exited: map[string]bool{}, created: map[string]bool{}, wake: make(chan struct{}, 1)}
+}
+
+func (c *controller) signal() {
+	select {
+	case c.wake <- struct{}{}:
+	default:
+	}
+}
+
+func (c *controller) gate(name string, kv ...any) {
+	who := "main"
+	if name != "mainwait" && name != "return" {
+		who = id(kv[0].(string))
+	}
+	if minorGate[name] {
+		return
+	}
+	c.mu.Lock()
+	if name == "exit" {
+		c.exited[who] = true
+		c.mu.Unlock()
+		c.signal()
+		return
+	}
+	if c.free {
+		c.mu.Unlock()
+		return
+	}
+	a := &arrival{gate: name, resume: make(chan struct{})}
+	c.parked[who] = a
+	c.mu.Unlock()
+	c.signal()
+	<-a.resume
+}
+
+// quiesce waits until every live goroutine (main + created tasks) is parked at a gate or has exited.
+func (c *controller) quiesce(mainLive func() bool, d time.Duration) bool {
+	deadline := time.After(d)
+	for {
+		c.mu.Lock()
+		ok := true
+		if mainLive() && c.parked["main"] == nil {
+			ok = false
+		}
+		for f := range c.created {
+			if c.parked[f] == nil && !c.exited[f] {
+				ok = false
+			}
+		}
+		c.mu.Unlock()
+		if ok {
+			return true
+		}
+		select {
+		case <-c.wake:
+		case <-time.After(2 * time.Millisecond):
+		case <-deadline:
+			return false
+		}
+	}
+}
+
+func (c *controller) release(who string) {
+	c.mu.Lock()
+	a := c.parked[who]
+	delete(c.parked, who)
+	c.mu.Unlock()
+	if a != nil {
+		close(a.resume)
+	}
+}
+
+func (c *controller) freeAll() {
+	c.mu.Lock()
+	c.free = true
+	ps := c.parked
+	c.parked = map[string]*arrival{}
+	c.mu.Unlock()
+	for _, a := range ps {
+		close(a.resume)
+	}
+}
+
+var allowedGate = map[string][]string{
+	"AcquireOk": {"acquire", "reacquire"}, "AcquireFail": {"acquire", "reacquire"}, "Find": {"find"}, "Loop": {"loop"},
+	"LoopDP": {"loopdp"}, "CheckRead": {"checkread"}, "CheckLookup": {"checkdep"}, "Release": {"release"},
+	"WaitReady": {"waitdep"}, "WaitCtx": {"waitdep"}, "WaitDPReady": {"waitdp"}, "WaitDPCtx": {"waitdp"},
+	"Unblock": {"unblock"}, "Link": {"link"}, "FinalRelease": {"finrelease"}, "PanicRelease": {"finrelease"},
+	"MainWaitReady": {"mainwait"}, "MainWaitCtx": {"mainwait"}, "MainReturn": {"return"},
+}
+
+// drive replays sched; start launches Compile. Returns a description of the first nonconformance ("" if none)
+// and the number of steps driven.
+func (c *controller) drive(sched [][]string, start func(), mainDone func() bool, cancel func()) (string, int) {
+	steps := 0
+	mainStarted := false
+	mainLive := func() bool { return mainStarted && !mainDone() }
+	for i, lab := range sched {
+		act := lab[0]
+		who := "main"
+		if len(lab) > 1 {
+			who = lab[1]
+		}
+		switch act {
+		case "MainStart":
+			mainStarted = true
+			start()
+			if !c.quiesce(mainLive, 3*time.Second) {
+				return fmt.Sprintf("step %d %v: no quiescence after start", i, lab), steps
+			}
+			steps++
+			continue
+		case "PanicFail":
+			continue // r.fail follows the unwinding release without a gate of its own
+		case "ExternalCancel":
+			tr.emit("Cancel")
+			cancel()
+			steps++
+			continue
+		}
+		c.mu.Lock()
+		a := c.parked[who]
+		ex := c.exited[who]
+		c.mu.Unlock()
+		if a == nil {
+			if act == "MainReturn" && mainDone() {
+				continue
+			}
+			return fmt.Sprintf("step %d %v: goroutine %s is not parked (exited=%v)", i, lab, who, ex), steps
+		}
+		okGate := false
+		for _, g := range allowedGate[act] {
+			if g == a.gate {
+				okGate = true
+			}
+		}
+		if !okGate {
+			return fmt.Sprintf("step %d %v: goroutine %s is at gate %q, the model expects %v", i, lab, who, a.gate, allowedGate[act]), steps
+		}
+		c.release(who)
+		steps++
+		if act == "MainReturn" {
+			break
+		}
+		if !c.quiesce(mainLive, 3*time.Second) {
+			c.mu.Lock()
+			desc := fmt.Sprintf("step %d %v: stalled; parked=%v exited=%v", i, lab, gateNames(c.parked), c.exited)
+			c.mu.Unlock()
+			return desc, steps
+		}
+	}
+	return "", steps
+}
+
+func gateNames(m map[string]*arrival) map[string]string {
+	out := map[string]string{}
+	for k, a := range m {
+		out[k] = a.gate
+	}
+	return out
+}
+
 func runOne(spec *runSpec) runResult {
 	res := runResult{ID: spec.ID, Descs: map[string]string{}}
 	files := make([]string, 0, len(spec.Imports))
@@ -312,7 +498,15 @@ func runOne(spec *runSpec) runResult {
 	var gateCount int64
 	var cancelOnce sync.Once
 	seed := uint64(spec.Seed)*0x9E3779B97F4A7C15 + 0x1234567
+	var ctl *controller
+	if len(spec.Sched) > 0 {
+		ctl = newController()
+	}
 	verifhook.Gate = func(name string, kv ...any) {
+		if ctl != nil {
+			ctl.gate(name, kv...)
+			return
+		}
 		k := atomic.AddInt64(&gateCount, 1)
 		if spec.Cancel > 0 && int(k) >= spec.Cancel {
 			cancelOnce.Do(func() {
@@ -363,15 +557,35 @@ func runOne(spec *runSpec) runResult {
 		pv  any
 	}
 	ch := make(chan outT, 1)
-	go func() {
-		defer func() {
-			if p := recover(); p != nil {
-				ch <- outT{pv: p}
-			}
+	var mainFinished int32
+	startCompile := func() {
+		go func() {
+			defer atomic.StoreInt32(&mainFinished, 1)
+			defer func() {
+				if p := recover(); p != nil {
+					ch <- outT{pv: p}
+				}
+			}()
+			fs, err := comp.Compile(ctx, names...)
+			ch <- outT{fs: fs, err: err}
 		}()
-		fs, err := comp.Compile(ctx, names...)
-		ch <- outT{fs: fs, err: err}
-	}()
+	}
+	if ctl != nil {
+		// tasks become known to the controller through the Create trace point
+		verifhook.Trace = func(ev string, kv ...any) {
+			if ev == "Create" {
+				ctl.mu.Lock()
+				ctl.created[id(kv[1].(string))] = true
+				ctl.mu.Unlock()
+			}
+			tr.emit(ev, kv...)
+		}
+		res.Nonconf, res.Steps = ctl.drive(spec.Sched, startCompile, func() bool { return atomic.LoadInt32(&mainFinished) == 1 }, cancel)
+		ctl.freeAll()
+		verifhook.Trace = tr.emit
+	} else {
+		startCompile()
+	}
 	var o outT
 	select {
 	case o = <-ch:
